@@ -15,6 +15,45 @@ def guard(body, var, where):
     return "(%s, %s)" % (OPS[m.group(1)], F.coq_int(int(m.group(2).replace("_", ""))))
 
 
+NEGATE = {"==": "!=", "!=": "==", ">": "<=", "<=": ">", "<": ">=", ">=": "<"}
+
+
+def restamp_guard(t, b):
+    """LexiconSet::update_dict_id(split, D): in `for ID in split.iter_mut()` the condition under which
+    `*ID = WordId::checked(D, ID.word())?;` runs, as a comparison of ID.dic() (directly or through a `let`) with a literal.
+    `if C { continue; } REST` is read as `if !(C) { REST }`, a negated comparison as the opposite comparison; WordId::dic() is
+    unsigned (checked on word_id.rs), so `!= 0` and `>= 1` are the same condition as `> 0` and are reported as `> 0`."""
+    sig = re.search(r"\bfn\s+update_dict_id\s*\(\s*(\w+)\s*:\s*&mut\s+Vec<WordId>\s*,\s*(\w+)\s*:\s*u8\s*\)", t)
+    if not sig:
+        raise F.FactError("update_dict_id: signature (split: &mut Vec<WordId>, dict_id: u8) not recognised")
+    lp = re.search(r"\bfor\s+(\w+)\s+in\s+%s\.iter_mut\(\)\s*\{" % re.escape(sig.group(1)), b)
+    if not lp:
+        raise F.FactError("update_dict_id: loop over split.iter_mut() not found")
+    end = R._match(b, lp.end() - 1)
+    if end < 0:
+        raise F.FactError("update_dict_id: unbalanced loop body")
+    body = R.continue_to_if(b[lp.end():end - 1])
+    idn = re.escape(lp.group(1))
+    subj = r"%s\.dic\(\)" % idn
+    lm = re.search(r"\blet\s+(\w+)\s*=\s*%s\s*;" % subj, body)
+    if lm:
+        subj = r"(?:%s|%s)" % (subj, re.escape(lm.group(1)))
+    g = re.search(r"\bif\s+(!\s*\(\s*)?%s\s*(>=|<=|==|!=|>|<)\s*([0-9_]+)\s*(\))?\s*\{\s*\*%s\s*=\s*WordId::checked\(%s,\s*%s\.word\(\)\)\?\s*;\s*\}"
+                  % (subj, idn, re.escape(sig.group(2)), idn), body)
+    if not g or bool(g.group(1)) != bool(g.group(4)):
+        raise F.FactError("update_dict_id: guarded re-stamping `if <id.dic()> <op> <literal> { *id = WordId::checked(dict_id, id.word())?; }` not found")
+    op, k = g.group(2), int(g.group(3).replace("_", ""))
+    if g.group(1):
+        op = NEGATE[op]
+    wt = F.strip_comments(F.src("sudachi/src/dic/word_id.rs"))
+    if re.search(r"\bpub\s+(?:const\s+)?fn\s+dic\s*\(\s*&self\s*\)\s*->\s*u(?:8|16|32|64|size)\b", wt):
+        if (op, k) in (("!=", 0), (">=", 1)):
+            op, k = ">", 0
+        elif (op, k) in (("<", 1), ("<=", 0)):
+            op, k = "==", 0
+    return "(%s, %s)" % (OPS[op], F.coq_int(k))
+
+
 def need(pattern, text, what):
     if not re.search(pattern, text, flags=re.S):
         raise F.FactError(what)
@@ -156,10 +195,8 @@ def gen():
     rel = "sudachi/src/dic/lexicon_set.rs"
     t = F.strip_comments(F.src(rel))
     b = F.fn_body(t, "update_dict_id", rel)
-    need(r"let\s+cur_dict_id\s*=\s*id\.dic\(\)\s*;", b, "update_dict_id: `let cur_dict_id = id.dic()` not found")
     out.append("(* update_dict_id: `if cur_dict_id > 0 { *id = WordId::checked(dict_id, id.word())? }` *)\n")
-    out.append("Definition restamp_cmp : cmp * N := %s.\n" % guard(b, "cur_dict_id", "update_dict_id"))
-    need(r"\*id\s*=\s*WordId::checked\(dict_id,\s*id\.word\(\)\)\?\s*;", b, "update_dict_id: re-stamping assignment not found")
+    out.append("Definition restamp_cmp : cmp * N := %s.\n" % restamp_guard(t, b))
     b = F.fn_body(t, "get_word_info_subset", rel)
     need(r"if\s+subset\.contains\(InfoSubset::SPLIT_A\)\s*\{\s*Self::update_dict_id\(&mut\s+word_info\.a_unit_split,\s*dict_id\)\?;", b,
          "get_word_info_subset: re-stamping of a_unit_split not found")
